@@ -301,7 +301,15 @@ def _provenance(prog: Program, res: Result, q: str):
 
     picks = [p for p in picks if is_ct_values(p.func.value.id, p.lineno)]
     if not picks:
-        raise AnalysisError(f"{q}: final pick '<values>.index(<excess>)' not found")
+        alt = sc.argopt_final_pick(fn)
+        if alt is None:
+            raise AnalysisError(f"{q}: final pick not found (neither '<values>.index(<excess>)' nor 'min|max(<feasible>, key=...)')")
+        res.ob("R01.1", f"{fi.name}: the final key is chosen among evaluated candidates filtered by excess <= 0 ({norm_stmt(alt['node'])[:70]})", alt["filter_ok"], prog.loc(fi, alt["node"]))
+        if not alt["filter_ok"]:
+            res.violation("R01.1", f"{fi.name}|provenance|{norm_stmt(alt['node'])[:80]}", prog.loc(fi, alt["node"]), q,
+                          f"'{norm_stmt(alt['node'])[:100]}' chooses the returned field among candidates that are not restricted to excess <= 0")
+        res.count("selecting_definitions", 2)
+        return
     n_defs = 0
     for p in picks:
         var = p.args[0].id
